@@ -439,7 +439,8 @@ class Dataset:
         """
         return Dataset(self.unified_rankings())
 
-    def sub_problem_from_elements(self, elements_to_keep: Set[Element]) -> 'Dataset':
+    def sub_problem_from_elements(self, elements_to_keep: Set[Element],
+                                  keep_empty_rankings: bool = False) -> 'Dataset':
         """
         Generates a sub-problem Dataset by projecting the original Dataset on a given set of elements.
 
@@ -449,6 +450,10 @@ class Dataset:
 
         :param elements_to_keep: A set of elements which the sub-problem should be based on.
         :type elements_to_keep: Set[Element]
+        :param keep_empty_rankings: If True, a ranking containing none of the elements to keep is kept, as an empty
+                                    ranking, instead of being removed (the Kemeny scores of the sub-problem then
+                                    count the elements non-ranked in that ranking). Default = False
+        :type keep_empty_rankings: bool
 
         :return: A Dataset representing the sub-problem, which only includes the elements from 'elements_to_keep' set.
         :rtype: Dataset
@@ -461,11 +466,11 @@ class Dataset:
                 if bucket.intersection(elements_to_keep)
             ])
             for ranking in self.rankings
-            if any(bucket.intersection(elements_to_keep) for bucket in ranking)
+            if keep_empty_rankings or any(bucket.intersection(elements_to_keep) for bucket in ranking)
         ]
         return Dataset(projected_rankings)
 
-    def sub_problem_from_ids(self, id_elements_to_keep: Set[int]) -> 'Dataset':
+    def sub_problem_from_ids(self, id_elements_to_keep: Set[int], keep_empty_rankings: bool = False) -> 'Dataset':
         """
         Generates a sub-problem Dataset by projecting the original Dataset on a given set of int IDs of elements.
 
@@ -475,12 +480,15 @@ class Dataset:
 
         :param id_elements_to_keep: A set of elements which the sub-problem should be based on.
         :type id_elements_to_keep: Set[int]
+        :param keep_empty_rankings: see sub_problem_from_elements
+        :type keep_empty_rankings: bool
 
         :return: A Dataset representing the sub-problem which only includes the elements from 'id_elements_to_keep' set.
         :rtype: Dataset
         """
 
-        return self.sub_problem_from_elements(set(self._mapping_id_element[id_elem] for id_elem in id_elements_to_keep))
+        return self.sub_problem_from_elements(set(self._mapping_id_element[id_elem] for id_elem in id_elements_to_keep),
+                                              keep_empty_rankings)
 
     def write(self, path) -> None:
         """
